@@ -16,10 +16,11 @@ RULE = (
     "Cases: a model of each family (daily legacy/current profiles, billing, hourly solar and non-solar profiles, CalTRACK hourly) "
     "fitted on a full-year baseline (every month and weekday present, by construction) x a reporting set (1 day .. 1 year, "
     "hourly spans may contain 23/25-hour days) x an alteration of its observed column from {scaled by k, permuted, random cells "
-    "NaN, a whole month NaN, all NaN, column absent, all zero, scattered zeros, sign flipped, +-inf cells}, with up to three gaps in the "
+    "NaN, a whole month NaN, all NaN, column absent, all zero, scattered zeros, sign flipped, +-inf cells; daily family also as hourly meter "
+    "readings + hourly weather through from_series with part of a day or a three-day outage blanked}, with up to three gaps in the "
     "reporting period's temperature / irradiance (identical in both runs, so filling them must not look at usage); in two cases of five the model "
     "has already produced an interim report over a shorter span and both runs start from copies of that used model. Oracle (metamorphic): the altered run "
-    "does not raise if the original did not; for every timestamp for which both runs produce a prediction the predicted value "
+    "does not raise if the original did not; both runs return the same timestamps; for every timestamp for which both runs produce a prediction the predicted value "
     "is bit-identical; hourly and CalTRACK runs produce a prediction on every row. Non-trivial: the alteration changes at least "
     "10% of the observed cells (hourly: and the reporting span is at least a week). Distinct = distinct case descriptions."
 )
@@ -29,6 +30,23 @@ ASSUMPTIONS = [
     "a data class rejecting the altered frame (e.g. a 3-day span with a hole read as billing data) is counted, not judged here: acceptance is C10's subject",
 ]
 ALTS = ["scale", "permute", "nan_cells", "nan_month", "all_nan", "absent", "zero", "zero_cells", "negate", "inf_cells", "constant"]
+SUB_ALTS = ["nan_day_partial", "outage3", "nan_day_partial", "outage3", "all_nan", "absent", "scale", "nan_cells", "zero_cells"]
+
+
+def hourly_from_daily(df, c):
+    """The same reporting period as hourly meter readings + an hourly weather feed (the daily class aggregates them); the feed
+    may start at another hour than local midnight."""
+    tz = df.index.tz
+    h0 = c.get("feed_h0", 0)
+    start = df.index[0].tz_convert("UTC") + pd.Timedelta(hours=h0)
+    end = (df.index[-1] + pd.Timedelta(days=1)).tz_convert("UTC")
+    hidx = pd.date_range(start, end, freq="h", inclusive="left").tz_convert(tz)
+    day_of = np.clip(np.searchsorted(df.index.asi8, hidx.asi8, side="right") - 1, 0, len(df) - 1)
+    hod = hidx.hour.values
+    out = pd.DataFrame({"temperature": df["temperature"].values[day_of] + 4.0 * np.sin((hod - 9) / 24.0 * 2 * np.pi)}, index=hidx)
+    counts = np.bincount(day_of, minlength=len(df)).astype(float)
+    out["observed"] = (df["observed"].values / np.maximum(counts, 1))[day_of] * (1 + 0.3 * np.cos(hod / 24.0 * 2 * np.pi))
+    return out
 
 
 @st.composite
@@ -41,7 +59,9 @@ def cases(draw, family=None):
             # the model may have been used before (an interim report over a shorter span)
             "interim": draw(st.sampled_from([None, None, 7, 30, 90])),
             # gaps in the reporting period's weather (same in both runs): (column, position as a fraction, length in rows)
-            "wx_gaps": draw(st.lists(st.tuples(st.sampled_from(["temperature", "ghi"]), st.floats(0, 0.95), st.integers(1, 40)), max_size=3))}
+            "wx_gaps": draw(st.lists(st.tuples(st.sampled_from(["temperature", "ghi"]), st.floats(0, 0.95), st.integers(1, 40)), max_size=3)),
+            # daily family only: the reporting period arrives as hourly meter readings + hourly weather through from_series
+            "subdaily": draw(st.sampled_from([False, False, True])), "sub_alt": draw(st.sampled_from(SUB_ALTS)), "feed_h0": draw(st.sampled_from([0, 0, 19, 7]))}
 
 
 def alter(df, c):
@@ -71,6 +91,16 @@ def alter(df, c):
         o[rng.random(n) < 0.1] = np.inf
     elif a == "constant":
         o[:] = 7.0
+    elif a == "nan_day_partial":
+        # 16 of the 24 readings of one interior day are lost (coverage 1/3: that day's usage is missing, nothing else changes)
+        day = out.index.normalize().unique()[max(1, len(out.index.normalize().unique()) // 2)]
+        rows = np.nonzero(out.index.normalize() == day)[0]
+        o[rows[:16]] = np.nan
+    elif a == "outage3":
+        days = out.index.normalize().unique()
+        k = max(1, len(days) // 3)
+        sel = np.isin(out.index.normalize(), days[k:k + 3])
+        o[sel] = np.nan
     if a == "absent":
         return out.drop(columns=["observed"])
     out["observed"] = o
@@ -95,9 +125,23 @@ def judge(c, rec):
             ln = min(ln, len(df) // 3)
             df.iloc[a0:a0 + ln, df.columns.get_loc(col)] = np.nan
             gaps += 1
+    sub = bool(c.get("subdaily")) and fam == "daily" and len(df) >= 5
+    if sub:
+        df = hourly_from_daily(df, c)
+        c = dict(c, alt=c["sub_alt"])
     df2 = alter(df, c)
     cls = ["family=" + fam, "profile=" + b["profile"], "alt=" + c["alt"], "n=%d" % c["rep"]["n"], "used-model=%d" % bool(c.get("interim")), "weather-gaps=%d" % min(gaps, 1)]
-    rep1 = zoo.build_reporting(b, c["rep"], frame=df)
+    def mk(frame):
+        if not sub:
+            return zoo.build_reporting(b, c["rep"], frame=frame)
+        from opendsm import eemeter as em
+
+        with contextlib.redirect_stdout(io.StringIO()):
+            return em.DailyReportingData.from_series(frame["observed"] if "observed" in frame else None, frame["temperature"],
+                                                     is_electricity_data=b.get("electric", True))
+
+    cls = cls + ["entry=" + ("hourly-from_series" if sub else "frame")]
+    rep1 = mk(df)
     try:
         p1 = zoo.predict(m, b, rep1)
     except Exception as e:
@@ -108,7 +152,7 @@ def judge(c, rec):
         rec.case(c, False, cls + ["original-raises"])
         return
     try:
-        rep2 = zoo.build_reporting(b, c["rep"], frame=df2)
+        rep2 = mk(df2)
     except Exception as e:
         bkt = exc_bucket(e)
         if bkt is None:
@@ -139,8 +183,11 @@ def judge(c, rec):
         i = int(np.nonzero(av[both].view(np.uint64) != zv[both].view(np.uint64))[0][0])
         rec.violation("%s/prediction-depends-on-observed" % fam, c, "at %s: %r with the original usage, %r after '%s' (%d of %d rows differ)" % (
             common[both][i], av[both][i], zv[both][i], c["alt"], int((av[both] != zv[both]).sum()), int(both.sum())))
-    if fam in ("hourly", "caltrack") and len(common) != len(a):
-        rec.violation(fam + "/rows-differ", c, "the two runs return different timestamps")
+    # hourly families: same rows; daily/billing: a prediction of the altered run sits on a row of the original run (days are days)
+    stray = z.index[np.isfinite(z.values)].difference(a.index)
+    if (fam in ("hourly", "caltrack") and len(common) != len(a)) or len(stray):
+        rec.violation(fam + "/rows-differ", c, "the two runs return different timestamps (%d / %d rows, %d in common; first %s / %s)" % (
+            len(a), len(z), len(common), a.index[0] if len(a) else None, z.index[0] if len(z) else None))
     o1 = df["observed"].values.astype(float)
     o2 = df2["observed"].values.astype(float) if "observed" in df2 else np.full(len(o1), np.nan)
     changed = float(np.mean(~((o1 == o2) | (np.isnan(o1) & np.isnan(o2)))))
